@@ -327,6 +327,8 @@ def lean_audit(prop, lean_dir=None):
 
 
 # ------------------------------------------------------------------------------------------
+# Each tie module is attached to the properties that the translated function *primarily* decides, so that a change of one
+# function raises the alarm where it belongs and not in every check that happens to exercise the function.
 # translator tie: Gen/Cxx/*.lean regenerated from the current source + the theorems of Tie/*.lean
 
 TIES = {
@@ -336,10 +338,10 @@ TIES = {
     'RetireUntil': dict(props=['C05'], theorems=['retire_until_eq', 'retire_tie'], cxx='sequence_type::retire_until (sequence.hpp)'),
     'IsCompleted': dict(props=['C06'], theorems=['is_completed_eq', 'completed_tie'], cxx='sequence_type::is_completed (sequence.hpp)'),
     'ValidateMatch': dict(props=['C05', 'C15'], theorems=['validate_match_eq', 'validate_tie'], cxx='sequence_type::validate_match (sequence.hpp)'),
-    'SeqDtor': dict(props=['C06'], theorems=['seq_dtor_eq', 'teardown_tie'], cxx='sequence_type::~sequence_type (sequence.hpp)'),
-    'RunActions': dict(props=['C01', 'C03', 'C05', 'C07', 'C08', 'C16'], theorems=['run_actions_order'], cxx='call_matcher::run_actions (mock.hpp)'),
-    'SemRunActions': dict(props=['C01', 'C03', 'C05', 'C07'], theorems=['run_actions_sem'], cxx='call_matcher::run_actions (mock.hpp), meaning of its trace'),
-    'SemNotify': dict(props=['C05', 'C06', 'C13'], theorems=['notify_sem'], cxx='lifetime_monitor::notify (lifetime.hpp), meaning of its trace'),
+    'SeqDtor': dict(props=['C06', 'C14'], theorems=['seq_dtor_eq', 'teardown_tie'], cxx='sequence_type::~sequence_type (sequence.hpp)'),
+    'RunActions': dict(props=['C01', 'C05', 'C07', 'C16'], theorems=['run_actions_order'], cxx='call_matcher::run_actions (mock.hpp)'),
+    'SemRunActions': dict(props=['C01', 'C05', 'C07'], theorems=['run_actions_sem'], cxx='call_matcher::run_actions (mock.hpp), meaning of its trace'),
+    'SemNotify': dict(props=['C05', 'C06'], theorems=['notify_sem'], cxx='lifetime_monitor::notify (lifetime.hpp), meaning of its trace'),
     'SemRelease': dict(props=['C04'], theorems=['release_sem'], cxx='call_matcher::~call_matcher (mock.hpp), meaning of its trace'),
     'SemDecommission': dict(props=['C04'], theorems=['decommission_sem'], cxx='call_matcher_list::decommission (mock.hpp), meaning of its trace'),
     'SemKillw': dict(props=['C13'], theorems=['killw_sem'], cxx='deathwatched<T>::~deathwatched (lifetime.hpp), meaning of its trace'),
@@ -349,25 +351,25 @@ TIES = {
     'IsUnfulfilled': dict(props=['C04'], theorems=['is_unfulfilled_tie'], cxx='call_matcher::is_unfulfilled (mock.hpp)'),
     'ReportMissed': dict(props=['C04'], theorems=['report_missed_order'], cxx='call_matcher::report_missed (mock.hpp)'),
     'Decommission': dict(props=['C04'], theorems=['decommission_order'], cxx='call_matcher_list::decommission (mock.hpp)'),
-    'Notify': dict(props=['C05', 'C06', 'C13'], theorems=['notify_order'], cxx='lifetime_monitor::notify (lifetime.hpp)'),
-    'LifetimeMonitorDtor': dict(props=['C13', 'C14'], theorems=['lifetime_monitor_dtor_order'], cxx='lifetime_monitor::~lifetime_monitor (lifetime.hpp)'),
-    'DeathwatchedDtor': dict(props=['C13', 'C14'], theorems=['deathwatched_dtor_order'], cxx='deathwatched<T>::~deathwatched (lifetime.hpp)'),
-    'TracerDtor': dict(props=['C14', 'C17'], theorems=['tracer_dtor_tie'], cxx='tracer::~tracer (mock.hpp)'),
-    'MockFunc': dict(props=['C01', 'C08', 'C17'], theorems=['mock_func_order'], cxx='trompeloeil::mock_func (mock.hpp)'),
-    'HandleCost': dict(props=['C05', 'C14'], theorems=['handle_cost_tie'], cxx='sequence_matcher::cost (sequence.hpp)'),
-    'HandleValidate': dict(props=['C05', 'C15'], theorems=['handle_validate_order'], cxx='sequence_matcher::validate_match (sequence.hpp)'),
-    'HandleRetire': dict(props=['C06', 'C14'], theorems=['handle_retire_order'], cxx='sequence_matcher::retire (sequence.hpp)'),
-    'HandleDetach': dict(props=['C06', 'C14'], theorems=['handle_detach_order'], cxx='sequence_matcher::detach (sequence.hpp)'),
+    'Notify': dict(props=['C05', 'C06'], theorems=['notify_order'], cxx='lifetime_monitor::notify (lifetime.hpp)'),
+    'LifetimeMonitorDtor': dict(props=['C13'], theorems=['lifetime_monitor_dtor_order'], cxx='lifetime_monitor::~lifetime_monitor (lifetime.hpp)'),
+    'DeathwatchedDtor': dict(props=['C13'], theorems=['deathwatched_dtor_order'], cxx='deathwatched<T>::~deathwatched (lifetime.hpp)'),
+    'TracerDtor': dict(props=['C17'], theorems=['tracer_dtor_tie'], cxx='tracer::~tracer (mock.hpp)'),
+    'MockFunc': dict(props=['C08', 'C17'], theorems=['mock_func_order'], cxx='trompeloeil::mock_func (mock.hpp)'),
+    'HandleCost': dict(props=['C05'], theorems=['handle_cost_tie'], cxx='sequence_matcher::cost (sequence.hpp)'),
+    'HandleValidate': dict(props=['C05'], theorems=['handle_validate_order'], cxx='sequence_matcher::validate_match (sequence.hpp)'),
+    'HandleRetire': dict(props=['C06'], theorems=['handle_retire_order'], cxx='sequence_matcher::retire (sequence.hpp)'),
+    'HandleDetach': dict(props=['C14'], theorems=['handle_detach_order'], cxx='sequence_matcher::detach (sequence.hpp)'),
     'HandleRetirePredecessors': dict(props=['C05'], theorems=['handle_retire_predecessors_order'], cxx='sequence_matcher::retire_predecessors (sequence.hpp)'),
-    'AllValidate': dict(props=['C05', 'C15'], theorems=['all_validate_order'], cxx='sequence_matchers<N>::validate (sequence.hpp)'),
+    'AllValidate': dict(props=['C05'], theorems=['all_validate_order'], cxx='sequence_matchers<N>::validate (sequence.hpp)'),
     'AllRetire': dict(props=['C06'], theorems=['all_retire_order'], cxx='sequence_matchers<N>::retire (sequence.hpp)'),
     'AllRetirePredecessors': dict(props=['C05', 'C06'], theorems=['all_retire_predecessors_order'], cxx='sequence_matchers<N>::retire_predecessors (sequence.hpp)'),
-    'CanBeCalled': dict(props=['C01', 'C05'], theorems=['can_be_called_tie'], cxx='sequence_handler<N>::can_be_called (mock.hpp)'),
-    'HandlerIsSatisfied': dict(props=['C03', 'C05', 'C06'], theorems=['is_satisfied_tie'], cxx='sequence_handler_base::is_satisfied (mock.hpp)'),
+    'CanBeCalled': dict(props=['C05'], theorems=['can_be_called_tie'], cxx='sequence_handler<N>::can_be_called (mock.hpp)'),
+    'HandlerIsSatisfied': dict(props=['C03'], theorems=['is_satisfied_tie'], cxx='sequence_handler_base::is_satisfied (mock.hpp)'),
     'HandlerIsSaturated': dict(props=['C03'], theorems=['is_saturated_tie'], cxx='sequence_handler_base::is_saturated (mock.hpp)'),
-    'HandlerIsForbidden': dict(props=['C03', 'C07'], theorems=['is_forbidden_tie'], cxx='sequence_handler_base::is_forbidden (mock.hpp)'),
+    'HandlerIsForbidden': dict(props=['C07'], theorems=['is_forbidden_tie'], cxx='sequence_handler_base::is_forbidden (mock.hpp)'),
     'HandlerIncrementCall': dict(props=['C03'], theorems=['increment_call_tie'], cxx='sequence_handler_base::increment_call (mock.hpp)'),
-    'HandleIsOptional': dict(props=['C05', 'C15'], theorems=['is_optional_tie'], cxx='sequence_matcher::is_optional (sequence.hpp)'),
+    'HandleIsOptional': dict(props=['C05'], theorems=['is_optional_tie'], cxx='sequence_matcher::is_optional (sequence.hpp)'),
 }
 
 
@@ -688,7 +690,7 @@ def _k_c15(op, e):
 
 def _k_c16(op, e):
     h = e.split(' ', 1)[0]
-    if h in ('ok', 'was', 'bad-op', 'no-shape', 'parse-error'):
+    if h in ('ok', 'was', 'okwas', 'bad-op', 'no-shape', 'parse-error'):
         return e
     if h == 'report':
         sev, r, kind, _ = _rep_fields(e)
